@@ -97,34 +97,88 @@ def _pc_after_ifndef(prog) -> Optional[Set[str]]:
 
 
 def _pc_fname(prog, key) -> Optional[Set[str]]:
+    """Every `<scope>.fnames.append(...)` of the function is reached only when the local that remembers the function-name
+    candidate -- a local whose non-None values are all `(context.peek_token(k), k)` pairs -- has been found not None."""
+    from .c03 import dominating_atoms
     fn = prog.fn(key)
+    cand = set()
     for n in walk_fn(fn.node):
-        if isinstance(n, ast.Call) and text(n.func) == "sc.fnames.append":
-            g = [a for a in ancestors(n) if isinstance(a, ast.If)]
-            if g and "identifier is not None" in text(g[0].test) and "args is True" in text(g[0].test):
-                return {"IDENTIFIER"}
-    return None
+        if isinstance(n, ast.Assign) and len(n.targets) == 1 and isinstance(n.targets[0], ast.Name):
+            v = n.value
+            if isinstance(v, ast.Tuple) and len(v.elts) == 2 and isinstance(v.elts[0], ast.Call) and text(v.elts[0].func).endswith("peek_token"):
+                cand.add(n.targets[0].id)
+    for n in walk_fn(fn.node):          # a candidate assigned anything else (but None) does not count
+        if isinstance(n, ast.Assign) and len(n.targets) == 1 and isinstance(n.targets[0], ast.Name) and n.targets[0].id in cand:
+            v = n.value
+            pair = isinstance(v, ast.Tuple) and len(v.elts) == 2 and isinstance(v.elts[0], ast.Call) and text(v.elts[0].func).endswith("peek_token")
+            if not pair and not (isinstance(v, ast.Constant) and v.value is None):
+                cand.discard(n.targets[0].id)
+    appends = [n for n in walk_fn(fn.node) if isinstance(n, ast.Call) and isinstance(n.func, ast.Attribute) and n.func.attr == "append"
+               and isinstance(n.func.value, ast.Attribute) and n.func.value.attr == "fnames"]
+    if not appends or not cand:
+        return None
+    for a in appends:
+        ok = False
+        for atom, negated, _ in dominating_atoms(fn, a):
+            if not negated and isinstance(atom, ast.Compare) and len(atom.ops) == 1 and isinstance(atom.ops[0], ast.IsNot) \
+                    and isinstance(atom.left, ast.Name) and atom.left.id in cand and text(atom.comparators[0]) == "None":
+                ok = True
+            if negated and isinstance(atom, ast.Compare) and len(atom.ops) == 1 and isinstance(atom.ops[0], ast.Is) \
+                    and isinstance(atom.left, ast.Name) and atom.left.id in cand and text(atom.comparators[0]) == "None":
+                ok = True
+        if not ok:
+            return None
+    return {"IDENTIFIER"}
 
 
-PRECONDITIONS = {
-    "context.py::Macro.from_token::read[token.value]":
-        ("the only caller is IsPreprocessorStatement.check_define, which raises unless the token is an IDENTIFIER",
-         _pc_macro_from_token),
-    "rules/check_identifier_name.py::CheckIdentifierName.run::read[val.value]":
-        ("elements of scope.vars_name are appended only from lists of tokens recorded under an IDENTIFIER guard",
-         _pc_vars_name),
-    "rules/check_preprocessor_define.py::CheckPreprocessorDefine.run::read[context.peek_token(i).value]#2":
-        ("IsPreprocessorStatement.check_define raises unless the token after `define` is an IDENTIFIER", _pc_after_define),
-    "rules/check_preprocessor_protection.py::CheckPreprocessorProtection.run::read[context.peek_token(i).value]":
-        ("IsPreprocessorStatement._just_identifier (used by check_ifndef) raises unless the argument is an IDENTIFIER",
-         _pc_after_ifndef),
-    "rules/is_func_declaration.py::IsFuncDeclaration.check_func_format::read[context.peek_token(i).value]#2":
-        ("the function-name position: reached only when an identifier followed by an argument list was recorded",
-         lambda prog: _pc_fname(prog, "rules/is_func_declaration.py::IsFuncDeclaration.check_func_format")),
-    "rules/is_func_prototype.py::IsFuncPrototype.check_func_format::read[context.peek_token(i).value]#2":
-        ("the function-name position: reached only when an identifier followed by an argument list was recorded",
-         lambda prog: _pc_fname(prog, "rules/is_func_prototype.py::IsFuncPrototype.check_func_format")),
-}
+def _sel_param(r) -> bool:
+    e = token_expr_of(r.node)
+    return isinstance(e, ast.Name) and e.id in r.fn.params
+
+
+def _sel_loop_over(attr):
+    def sel(r) -> bool:
+        e = token_expr_of(r.node)
+        if not isinstance(e, ast.Name):
+            return False
+        for n in walk_fn(r.fn.node):
+            if isinstance(n, (ast.For, ast.comprehension)) and any(isinstance(x, ast.Name) and x.id == e.id for x in ast.walk(n.target)) \
+                    and attr in text(n.iter, 300):
+                return True
+        return False
+    return sel
+
+
+def _sel_role(*wanted, detail_endswith=None):
+    def sel(r) -> bool:
+        for role, detail, _ in r.roles:
+            if role in wanted and (detail_endswith is None or any(str(detail).endswith(x) for x in detail_endswith)):
+                return True
+        return False
+    return sel
+
+
+# (function, which read of it, why its token kind is known, validator).  The read is picked by what is done with the text
+# (not by its spelling or rank), so that renaming the index variable or adding an alias does not lose the entry.
+PRECONDITIONS = [
+    ("context.py::Macro.from_token", _sel_param,
+     "the only caller is IsPreprocessorStatement.check_define, which raises unless the token is an IDENTIFIER",
+     _pc_macro_from_token),
+    ("rules/check_identifier_name.py::CheckIdentifierName.run", _sel_loop_over("vars_name"),
+     "elements of scope.vars_name are appended only from lists of tokens recorded under an IDENTIFIER guard",
+     _pc_vars_name),
+    ("rules/check_preprocessor_define.py::CheckPreprocessorDefine.run", _sel_role("CLASS"),
+     "IsPreprocessorStatement.check_define raises unless the token after `define` is an IDENTIFIER", _pc_after_define),
+    ("rules/check_preprocessor_protection.py::CheckPreprocessorProtection.run", _sel_role("VARCOMPARE"),
+     "IsPreprocessorStatement._just_identifier (used by check_ifndef) raises unless the argument is an IDENTIFIER",
+     _pc_after_ifndef),
+    ("rules/is_func_declaration.py::IsFuncDeclaration.check_func_format", _sel_role("STORE", "IDCOMPARE", detail_endswith=("fnames",)),
+     "the function-name position: reached only when an identifier followed by an argument list was recorded",
+     lambda prog: _pc_fname(prog, "rules/is_func_declaration.py::IsFuncDeclaration.check_func_format")),
+    ("rules/is_func_prototype.py::IsFuncPrototype.check_func_format", _sel_role("STORE", "IDCOMPARE", detail_endswith=("fnames",)),
+     "the function-name position: reached only when an identifier followed by an argument list was recorded",
+     lambda prog: _pc_fname(prog, "rules/is_func_prototype.py::IsFuncPrototype.check_func_format")),
+]
 
 
 def _token_ctor(prog, fn, call) -> bool:
@@ -200,7 +254,6 @@ def _single_token_of_kind(prog, fn: Fn, kind: str) -> Optional[str]:
     return None
 
 
-
 class Read:
     def __init__(self, fn, node, how, key):
         self.fn, self.node, self.how, self.key = fn, node, how, key
@@ -223,25 +276,26 @@ def all_reads(prog) -> List[Read]:
             r.kinds = set()
             out.append(r)
             continue
+        if how in ("length", "unsafe_length"):
+            r.roles = [("WIDTH", None, node)]
+        else:
+            r.roles = classify(fn, node)
         k = guard_kinds(prog, fn, token_expr_of(node), node)
         if k is not None:
             r.kinds, r.kind_source = k, "guard"
-        elif key in PRECONDITIONS:
-            reason, validate = PRECONDITIONS[key]
-            try:
-                k = validate(prog)
-            except Exception:
-                k = None
-            if k is not None:
-                r.kinds, r.kind_source = k, "precondition: " + reason
-            else:
-                r.kind_source = "precondition no longer validates: " + reason
-        if how in ("length", "unsafe_length"):
-            r.roles = [("WIDTH", None, node)]
-        elif how == "str()":
-            r.roles = classify(fn, node)
         else:
-            r.roles = classify(fn, node)
+            for fkey, select, reason, validate in PRECONDITIONS:
+                if fn.key != fkey or not select(r):
+                    continue
+                try:
+                    k = validate(prog)
+                except Exception:
+                    k = None
+                if k is not None:
+                    r.kinds, r.kind_source = k, "precondition: " + reason
+                else:
+                    r.kind_source = "precondition no longer validates: " + reason
+                break
         if not r.roles and not isinstance(parent(node), ast.Expr):
             r.roles = [("UNCLASSIFIED", "no consumer of the text could be classified", node)]
         out.append(r)
